@@ -669,11 +669,13 @@ func (ex *Exec) recordCandidate(id, kind, label string, fr *frame, p token.Pos, 
 
 func (ex *Exec) concreteDraw(d Draw, m map[string]interface{}) Draw {
 	out := Draw{Op: d.Op, Label: d.Label, N: d.N}
-	if len(d.vars) == 0 && d.Op != "choose" && d.Op != "string" {
+	if len(d.vars) == 0 && d.Op != "choose" && d.Op != "string" && d.Op != "tag" {
 		out.V, out.Bytes = d.V, d.Bytes
 		return out
 	}
 	switch d.Op {
+	case "tag":
+		out.V = d.V
 	case "choose":
 		out.V = d.pick
 	case "string", "bytes":
